@@ -60,7 +60,10 @@ def plan_fault_histories(case: dict, ref: dict) -> list[list[dict]]:
         for _k in range(1 if r.random() < 0.75 else 2):
             e = engine.pick_fault_event(r, strata)
             if e is not None:
-                faults.append({"sel": engine.selector_for(e), "kind": r.choice(_c16.ERROR_KINDS[e["op"]])})
+                f = {"sel": engine.selector_for(e), "kind": r.choice(_c16.ERROR_KINDS[e["op"]])}
+                if r.random() < 0.3 and not f["kind"].endswith("_short"):
+                    f["sticky"] = True  # the condition persists (full disk, read-only directory)
+                faults.append(f)
         if faults:
             hs.append([{"sigma": {}, "faults": faults, "role": "fault"}])
     # obstructed output directory: a regular file where a directory is needed / a directory where the API file goes
@@ -152,7 +155,7 @@ def judge_run(case: dict, hi: int, res: dict, role: str, ref: dict | None) -> li
 def run_case(case: dict, parallel: int = 1) -> dict:
     tag = f"{PROP}-{case['index']}"
     verdict: dict = {"violations": [], "index": case["index"], "stats": {}}
-    timeout = 120.0 if case["params"].get("tier") == "quick" else 300.0
+    timeout = 90.0 if case["params"].get("tier") == "quick" else 240.0
     n_sched = case["params"].get("n_sched", 3)
     first_n = 1 + n_sched if not case.get("planned") else len(case["histories"])
     first = engine.run_histories(tag + "a", case["pkg"], case["options"], case["histories"][:first_n], parallel=parallel, timeout=timeout)
@@ -183,6 +186,8 @@ def run_case(case: dict, parallel: int = 1) -> dict:
             configured[f["kind"]] = configured.get(f["kind"], 0) + 1
         for f in res.get("fired") or []:
             fired[f["kind"]] = fired.get(f["kind"], 0) + 1
+        if res.get("sticky_hits"):
+            fired["sticky_repeats"] = fired.get("sticky_repeats", 0) + res["sticky_hits"]
         if res["outcome"] == "harness_error":
             verdict.setdefault("harness_notes", []).append(f"history {hi}: {res.get('error', '')[:300]}")
             continue
@@ -212,7 +217,7 @@ ASSUMPTIONS = [
     "read-side faults (unreadable / vanishing source files) make mypy refuse the package and are outside the property ('any package the type checker can load'); only write-side faults are injected",
     "an injected error is recognised by object identity (or as the explicit __cause__ of the raised exception), not by errno",
     "a run on an obstructed output directory (file where a directory is needed) may fail with the file system's own OSError; only a non-OSError or an error raised by the tool's own code counts as internal error there",
-    "non-termination is decided by a watchdog (120 s quick / 300 s thorough per run, normal run time 2-4 s) plus a deterministic livelock probe at the docstring parser's load-retry loop",
+    "non-termination is decided by a watchdog (90 s quick / 240 s thorough per run, normal run time 2-4 s) plus a deterministic livelock probe at the docstring parser's load-retry loop",
 ]
 
 
